@@ -1041,6 +1041,13 @@ def run_presink_impl(n_before, n_after, size):
             written += data
             da.write(data)
             await pair.pump()
+        # the application installs another sink later on: nothing may be handed over twice
+        db.sink = got.extend
+        await pair.pump()
+        data = gen_bytes(200, size)
+        written += data
+        da.write(data)
+        await pair.pump()
         return bytes(got), bytes(written)
     return run_virtual(main())
 
@@ -1052,8 +1059,9 @@ def run_presink(ctx, batch):
 
     def frames(base, n, size):
         return coq_list([list(gen_bytes(base + k, size)) for k in range(n)])
-    exprs = [f'digest (q_out (rxq_recv rx_queue_size (rxq_set_sink (rxq_recv rx_queue_size rxq_init '
-             f'{frames(0, nb, sz)})) {frames(100, na, sz)}))' for nb, na, sz in cases]
+    exprs = [f'digest (q_out (rxq_recv rx_queue_size (rxq_set_sink (rxq_recv rx_queue_size (rxq_set_sink '
+             f'(rxq_recv rx_queue_size rxq_init {frames(0, nb, sz)})) {frames(100, na, sz)})) {frames(200, 1, sz)}))'
+             for nb, na, sz in cases]
 
     def compare(model):
         for (nb, na, sz), m in zip(cases, model):
